@@ -134,6 +134,27 @@ func main() {
 				}
 			}
 		}
+		if f, err := r.Load("frac/active_token_list.go"); err != nil {
+			e.Missing("tokenListAppendOrder", err)
+		} else if fd := f.Func("TokenList", "Append"); fd == nil {
+			e.Missing("tokenListAppendOrder", "TokenList.Append not found")
+		} else {
+			evs := callEvents(f, fd.Body, []string{"getTokenLIDs", "createTIDs", "fillFieldTIDs", "fillSizes", "appendMu.Lock", "appendMu.Unlock"}, nil)
+			order := sorted(evs)
+			locked := len(order) >= 2 && order[0] == "appendMu.Lock" && len(fd.Body.List) >= 2
+			if locked {
+				d, ok := fd.Body.List[1].(*ast.DeferStmt)
+				locked = ok && strings.HasSuffix(f.Render(d.Call.Fun), "appendMu.Unlock")
+			}
+			var rest []string
+			for _, x := range order {
+				if !strings.HasPrefix(x, "appendMu.") {
+					rest = append(rest, x)
+				}
+			}
+			e.Strs("tokenListAppendOrder", rest, "TokenList.Append: token objects, then TIDs, then the per-field lists readers search")
+			e.Bool("tokenListAppendLocked", locked, "TokenList.Append starts with appendMu.Lock(); defer appendMu.Unlock()")
+		}
 		if f, err := r.Load("proxy/bulk/indexer.go"); err != nil {
 			e.Missing("firstMetaToken", err)
 		} else if fd := f.Func("indexer", "appendMeta"); fd == nil {
@@ -313,5 +334,5 @@ func main() {
 			e.Bool("trySetClearsUnlessSealing", total == 2 && inside == 2 && sealingDef,
 				"trySetSuicided: `sealing := f.isSealingState()` and the only field writes are sealed=nil, active=nil under `if !sealing`")
 		}
-	}, "frac/active_indexer.go", "frac/active_index.go", "frac/active.go", "proxy/bulk/indexer.go", "fracmanager/proxy_frac.go")
+	}, "frac/active_indexer.go", "frac/active_index.go", "frac/active.go", "frac/active_token_list.go", "proxy/bulk/indexer.go", "fracmanager/proxy_frac.go")
 }
